@@ -478,7 +478,13 @@ def run(F, chk):
     for fn in sorted(F.fns.values(), key=lambda f: f["id"]):
         if fn.get("cls") != "nifly::NifFile" or not fn.get("body") or fn.get("tmpl") == "pattern":
             continue
-        if not any(n["k"] == "Call" and n.get("fid") in setters for n in walk(fn["body"])):
+        def _sets_pos(n_):
+            if n_["k"] != "Call":
+                return False
+            ts_ = [t for t in (F.call_targets(n_) or []) if t in F.fns and F.fns[t].get("cls") == "nifly::NiHeader"]
+            return any(t in setters or (F.reachable([t]) & setters) for t in ts_)
+
+        if not any(_sets_pos(n) for n in walk(fn["body"])):
             continue
         fn = F.inl(fn)  # the back-patch (test + reset) may live in a private helper
         pos_ids = _pos_expr(fn)
@@ -497,7 +503,7 @@ def run(F, chk):
             def on_node(self, n, st):
                 if st is None or n["k"] != "Call":
                     return st
-                if n.get("fid") in setters:
+                if n.get("fid") in setters or _sets_pos(n):
                     return st | {("O", "blockSizePos recorded")}
                 if n.get("fid") in resetters:
                     return frozenset(f for f in st if f != ("O", "blockSizePos recorded"))
